@@ -99,6 +99,8 @@ class Scen(CompScenario):
             self.dut = StreamSink(shape)
             self.top.add("dut", self.dut)
             self.caller("read", self.dut.read)
+            if c.get("twin"):
+                self.twin("read", self.dut.read)  # two consumers sharing the consuming read
             self.caller("peek", self.dut.peek)
             self.add_input("i.valid", self.dut.i.valid)
             self.add_obs("i.ready", self.dut.i.ready)
@@ -109,6 +111,8 @@ class Scen(CompScenario):
             self.top.add("dut", self.dut)
             self.caller("write", self.dut.write)
             self.caller("read", self.dut.read)
+            if c.get("twin"):
+                self.twin("read", self.dut.read)
             self.add_input("stall", self.stub.stall)
             self.pl = [("" if p == "v" else "." + p) for p, _ in leaves(self.stub.i.payload)]
         self.wmask = [(1 << w) - 1 for w in self._leaf_widths(c["shape"])]
@@ -184,10 +188,11 @@ class Scen(CompScenario):
             stim["stall"] = 0 if drain else int(rng.random() < c["p_stall"])
             for suf, v in zip(self.pl, self.fresh(rng)):
                 stim["write.i.data" + suf] = v
-        return stim
+        return self.twin_stim(rng, stim)
 
     # ---- oracle -----------------------------------------------------------------------------
     def check(self, cyc, stim, obs):
+        stim, obs = self.fold_twins(stim, obs)
         getattr(self, "check_" + self.kind)(cyc, stim, obs)
 
     def _vals(self, d, base):
@@ -365,7 +370,7 @@ class Prop(PropBase):
             if rng.random() < 0.3:
                 shape.append(["x", 9])
         cycles = rng.randint(60, 400 if big else 200)
-        cfg = {"kind": kind, "shape": shape, "cycles": cycles, "sched": rng.choice(["eager", "eager", "rr"]),
+        cfg = {"kind": kind, "shape": shape, "cycles": cycles, "twin": int(kind != "source" and rng.random() < 0.3), "sched": rng.choice(["eager", "eager", "rr"]),
                "plan": make_plan(rng, cycles, ["random", "random", "stall", "starve", "full", "half"], min_len=5, max_len=30)}
         if kind == "sink":
             cfg["p_peek"] = rng.choice([0.0, 0.3, 0.7, 1.0])
@@ -383,7 +388,7 @@ class Prop(PropBase):
 
     def cfg_signature(self, cfg):
         return [cfg["kind"], cfg["shape"], cfg["sched"], cfg.get("stub"), cfg.get("stub_depth"), cfg.get("p_peek"),
-                cfg.get("p_stall")]
+                cfg.get("p_stall"), cfg.get("twin", 0)]
 
     def shrink_cfg(self, cfg):
         if not isinstance(cfg["shape"], int) and len(cfg["shape"]) > 1:
